@@ -76,10 +76,16 @@ class SymCtx(object):
         E.add(d.z <= _days_in_month(y.z, m.z))
         return SDate(y, m, d, True)
 
-    def time(self, name):
-        from .stdmodels import STime
+    def time(self, name, tz='naive', offset_range=(-840, 840)):
+        from .stdmodels import STime, SFixedOffset
+        import pytz
+        tzinfo = None
+        if tz == 'utc':
+            tzinfo = pytz.utc
+        elif tz == 'offset':
+            tzinfo = SFixedOffset(self.int(name + '_off', *offset_range))
         return STime(self.int(name + '_H', 0, 23), self.int(name + '_M', 0, 59),
-                     self.int(name + '_S', 0, 59), self.int(name + '_us', 0, 999999), None, True)
+                     self.int(name + '_S', 0, 59), self.int(name + '_us', 0, 999999), tzinfo, True)
 
     def datetime(self, name, tz='naive', ymin=1, ymax=9999, offset_range=(-840, 840)):
         from .stdmodels import SDateTime, SFixedOffset, _days_in_month
